@@ -293,6 +293,10 @@ impl<T> AtomicBucket<T> {
                         Ok(ptr) => {
                             #[cfg(metrics_verif)]
                             metrics::verif::point("push.casfull.post", &[1, ptr.as_raw() as i64]);
+                            // a yield point right after the new tail became visible: whatever the code still does
+                            // to the new block from here on can be interleaved with readers
+                            #[cfg(metrics_verif)]
+                            metrics::verif::point("push.installed.pre", &[]);
                             let new_tail = unsafe { ptr.deref() };
 
                             // Now push into our new block.
